@@ -16,7 +16,7 @@ from . import build
 
 VERIF = build.VERIF
 OUT = os.environ.get("VERIF_OUT", os.path.join(VERIF, "out"))
-EVIDENCE = os.path.join(VERIF, "evidence")
+EVIDENCE = os.environ.get("VERIF_EVIDENCE", os.path.join(VERIF, "evidence"))
 KNOWN = os.path.join(VERIF, "known_findings.json")
 
 EXIT_OK, EXIT_VIOLATION, EXIT_HARNESS = 0, 1, 2
